@@ -144,6 +144,24 @@ def classify(text: str):
         toks = lex(text)
     except ValueError as e:
         return (UNSPECIFIED, str(e))
+    # constructs the statement does not cover make the whole text UNSPECIFIED, wherever they occur and whatever
+    # else is wrong with the nesting (a later oddity must not be judged through an earlier error or vice versa)
+    for i, tk in enumerate(toks):
+        if tk.kind == "cdata":
+            if tk.val == "" or tk.val != tk.val.strip():
+                return (UNSPECIFIED, "empty or untrimmed CDATA data")
+            prev = toks[i - 1] if i else None
+            prev2 = toks[i - 2] if i > 1 else None
+            directly = prev is not None and (prev.kind == "start" or (prev.kind == "text" and not prev.val.strip() and prev2 is not None and prev2.kind == "start"))
+            if not directly:
+                return (UNSPECIFIED, "CDATA section not directly inside a data element")
+            nxt = toks[i + 1] if i + 1 < len(toks) else None
+            if nxt is not None and nxt.kind == "text" and nxt.val.strip():
+                return (UNSPECIFIED, "text after CDATA section")
+            if nxt is not None and nxt.kind == "cdata":
+                return (UNSPECIFIED, "two CDATA sections in one element")
+        elif tk.kind == "text" and any(ord(c) < 32 and c not in "\t\n\r" for c in tk.val):
+            return (UNSPECIFIED, "control characters in text")
 
     verdicts = set()
     reasons = []
@@ -192,8 +210,9 @@ def classify(text: str):
                             return (UNSPECIFIED, "text after CDATA section")
                         j += 1
                 if data is not None:
-                    if "<" in data and False:
-                        pass
+                    if data != data.strip():
+                        # only CDATA can carry untrimmed data: outside the quantifier (trimmed, non-empty data)
+                        return (UNSPECIFIED, "CDATA data with leading or trailing whitespace")
                     el.data = data
                     el.dataless_open = False
                     attach(el)
